@@ -134,10 +134,13 @@ package kademlia
 //@   requires inv(kc)
 //@   ensures inv(kc)
 //@   ensures kc.count + (len(ret) - len(out)) == old(kc.count) && len(ret) >= len(out)
+//@   ensures [allbuckets] forall j, k:string :: 0 <= j && j < len(kc.buckets) && kc.buckets[j].minExpiresAt < now && (k in kc.buckets[j].entries) ==> !expired(kc.buckets[j].entries[k].ExpiresAt, now)
 //@   loop 0:
 //@     invariant 0 <= _i && _i <= len(kc.buckets) && inv(kc)
+//@     invariant forall j, k:string :: 0 <= j && j < _i && kc.buckets[j].minExpiresAt < now && (k in kc.buckets[j].entries) ==> !expired(kc.buckets[j].entries[k].ExpiresAt, now)
 //@     invariant kc.count + (len(out) - len(old(out))) == old(kc.count) && len(out) >= len(old(out))
 //@     invariant len(kc.buckets) == old(len(kc.buckets))
+//@     invariant kc.buckets == old(kc.buckets)
 //@
 //@ func newBucket
 //@   ensures ret != nil && fresh(ret) && ret.entries != nil && fresh(ret.entries) && len(ret.entries) == 0
